@@ -182,7 +182,7 @@ def main(prop, tier, seed, replay_path=None):
     cov = dict(
         evaluations=int(evaluations), distinct_nontrivial=int(nontrivial),
         rule=d.get('rule', ''), samples=samples[:10] or [dict(note='no samples')],
-        states=int(max(1, stats.get('paths', 0) or evaluations)), transitions=int(max(1, stats.get('decisions', 0) or evaluations)),
+        states=int(max(1, stats.get('states', 0) or stats.get('paths', 0) or evaluations)), transitions=int(max(1, stats.get('paths', 0) or evaluations)),
         traces_validated_against_impl=int(stats.get('paths', 0) or evaluations),
         programs=int(d.get('programs', len(units))), disagreements_checked=int(len(keys)),
         explanation=d.get('explanation', d.get('rule', '')),
